@@ -342,6 +342,22 @@ def run_case(case, ctx):
             doc = build(case["shape"], case["variant"], case["props"])
             rec.case(core.h(case), _count(case["shape"]) >= 2)
             ok, res, calls = budget.run(lambda: check_tree(doc, rec, case, True), 50000000)
+        elif case["kind"] == "loaded":
+            doc = loaded_tree(ctx, case)
+            rec.case(core.h(case), True)
+            if doc is None:
+                rec.count("loaded", "not-loadable (not judged)")
+                return
+            try:
+                ok, res, calls = budget.run(lambda: check_tree(doc, rec, case, False), 200000000)
+            except Exception as exc:
+                import traceback
+                last = traceback.extract_tb(exc.__traceback__)[-1]
+                if "/odml/" not in last.filename.replace("\\", "/"):
+                    raise
+                # a path / traversal function of the library raised on a document the reader handed out
+                rec.violation("loaded-tree/query-raised-%s@%s" % (type(exc).__name__, last.name), repr(exc)[:200], case)
+                return
         elif case["kind"] == "edited":
             rec.case(core.h(case), True)
             ok, res, calls = budget.run(lambda: edited_tree(ctx, rec, case), 400000000)
@@ -377,6 +393,38 @@ def random_tree(ctx, i, n, seed=None):
 EDIT_OPS = ["move-append", "move-insert", "move-parent", "prop-move-append", "prop-move-insert", "sec-setitem-new",
             "sec-setitem-moved", "prop-setitem-new", "rename", "prop-rename", "reorder", "prop-reorder", "remove-readd",
             "clone-append", "extend", "create"]
+
+
+def loaded_tree(ctx, case):
+    """A tree that comes out of a hand-written YAML file in which some names are scalars YAML does not read as text
+    (a date, numbers, a boolean): whatever the reader makes of them, the loaded document's paths and traversals agree."""
+    import datetime as _dt
+    import yaml
+    from models import emit
+    from vlib import model
+    from odml.tools.odmlparser import ODMLReader
+    src = random_tree(ctx, case["i"], case["n"], seed="loaded")
+    m = model.model_of(src)
+    natives = [_dt.date(2020, 1, 1), 12, 1.5, True, _dt.date(1999, 12, 31), 0]
+    k = [0]
+
+    def walk(d):
+        if isinstance(d, dict):
+            if "name" in d and ("type" in d or "value" in d):
+                k[0] += 1
+                if k[0] % 3 == 0:
+                    d["name"] = natives[(k[0] // 3) % len(natives)]
+            for v in d.values():
+                walk(v)
+        elif isinstance(d, list):
+            for v in d:
+                walk(v)
+    d = emit.dict_from_model(m)
+    walk(d)
+    try:
+        return ODMLReader("YAML", show_warnings=False).from_string(yaml.safe_dump(d))
+    except Exception:
+        return None
 
 
 def edited_tree(ctx, rec, case):
@@ -490,6 +538,10 @@ def run(ctx):
             continue
         case = {"kind": "random", "i": j, "n": [50, 120, 300][j % 3]}
         run_case(case, ctx)
+    for j in range(ctx.pick(48, 1500)):
+        if not ctx.mine(j):
+            continue
+        run_case({"kind": "loaded", "i": j, "n": [6, 12, 20][j % 3]}, ctx)
     for j in range(ctx.pick(160, 6000)):
         if not ctx.mine(j):
             continue
